@@ -565,6 +565,14 @@ func (g *Graph) factsLattice() Lattice[Facts] {
 				}
 				if len(lhs) == 0 && len(unlockRoots) == 0 {
 					// `x, ok := m[k]` etc. handled through lhs; nothing to kill
+					if _, isExpr := st.Node.(*ast.ExprStmt); isExpr {
+						n := s.clone()
+						before := len(n.m)
+						g.P.applyCalleePost(info, &n, st.Node)
+						if len(n.m) != before {
+							return n
+						}
+					}
 					return s
 				}
 				n := s.clone()
@@ -585,6 +593,7 @@ func (g *Graph) factsLattice() Lattice[Facts] {
 						}
 					}
 				}
+				g.P.applyCalleePost(info, &n, st.Node)
 				// x := y / x = y with y a variable or field path of a nil-able type: remember that x is a copy of y
 				// ("x ≡ y"), so that a later nil test of x also decides y (killed when either is assigned)
 				if as, ok := st.Node.(*ast.AssignStmt); ok && len(as.Lhs) == len(as.Rhs) && (as.Tok == token.ASSIGN || as.Tok == token.DEFINE) {
